@@ -19,13 +19,16 @@ import (
 //     ignore result = matched, U unmatched) is known by construction;
 //   raw: arbitrary bytes, judged against the sequential reference only.
 
-const StructuredRegex = `^([a-z0-9]+):(\d+):([MEIW]):(.*)$`
+const StructuredRegex = `^([a-z0-9]+):(\d+):([MEIJW]):(.*)$`
 
 // StructuredExtract yields "" for class E and the whole line otherwise.
 const StructuredExtract = `{if {neq {3} E} {0}}`
 
-// StructuredIgnore: truthy for class I; whitespace-only (not truthy) for class W.
-var StructuredIgnore = []string{`{eq {3} I}`, `{if {eq {3} W} " "}`}
+// StructuredIgnore: three rules so that different lines are ignored by different
+// rules (a shared, mutable ignore set would be exercised from every worker):
+// truthy for class I (rule 0) and class J (rule 2); whitespace-only (not truthy)
+// for class W (rule 1).
+var StructuredIgnore = []string{`{eq {3} I}`, `{if {eq {3} W} " "}`, `{eq {3} J}`}
 
 var payloadAlphabet = []string{"a", "b", "z", "0", "7", " ", "\t", ":", "\r", "\x00", "\xff", "\xc3", "é", "日", "{", "}", "\\", "\"", ",", "\x1b"}
 
@@ -150,7 +153,7 @@ func GenStructured(r *run.Rand, o GenOpts) *Workload {
 				line = []byte("\r")
 				class = 'U'
 			default:
-				class = "MMMMMMEEIIIWWUUUUU"[r.Intn(18)]
+				class = "MMMMMMEEIIJJWWUUUU"[r.Intn(18)]
 				long := false
 				if longBudget > 0 && r.Intn(nLines) < 3 {
 					long = true
@@ -362,4 +365,64 @@ func StuckEvidence() (stuck bool, text string) {
 		}
 	}
 	return true, strings.Join(s1, "\n\n")
+}
+
+// GenAligned builds fixed-width records whose width divides the 128 KiB read
+// buffer, so that a newline lands exactly on the last byte of a full buffer
+// (the boundary at which a scanner could be tempted to recycle its buffer).
+func GenAligned(r *run.Rand, reader bool) *Workload {
+	w := &Workload{Scenario: "aligned", Matcher: MatcherSpec{Kind: "regex", Pattern: StructuredRegex},
+		Extract: StructuredExtract, Ignore: append([]string(nil), StructuredIgnore...), Seed: r.U64()}
+	nIn := 1
+	if !reader {
+		nIn = r.Range(1, 3)
+	}
+	for i := 0; i < nIn; i++ {
+		width := []int{16, 32, 64, 128, 256, 1024}[r.Intn(6)]
+		crlf := r.Intn(4) == 0
+		perBuf := 131072 / width
+		nLines := perBuf*r.Range(1, 4) + r.Intn(3)*r.Intn(perBuf)
+		var data []byte
+		var classes []byte
+		for n := 1; n <= nLines; n++ {
+			class := "MMMMMMEEIIJJWWUUUU"[r.Intn(18)]
+			line := []byte(fmt.Sprintf("f%d:%d:%c:", i, n, class))
+			body := width - 1
+			if crlf {
+				body--
+			}
+			for len(line) < body {
+				line = append(line, byte('a'+(n+len(line))%26))
+			}
+			data = append(data, line...)
+			if crlf {
+				data = append(data, '\r')
+			}
+			data = append(data, '\n')
+			classes = append(classes, byte(class))
+		}
+		name := fmt.Sprintf("f%d", i)
+		if reader {
+			name = "<stdin>"
+		}
+		w.Inputs = append(w.Inputs, Input{Name: name, Data: data})
+		w.Classes = append(w.Classes, classes)
+	}
+	w.Cfg = GenConfig(r, reader)
+	if reader {
+		// chunks that exactly fill the scanner's buffer, or are power-of-two fractions of it
+		var steps []ReadStep
+		left := len(w.Inputs[0].Data)
+		k := []int{131072, 65536, 4096, 1 << 20}[r.Intn(4)]
+		for left > 0 {
+			n := k
+			if n > left {
+				n = left
+			}
+			steps = append(steps, ReadStep{N: n})
+			left -= n
+		}
+		w.Inputs[0].Steps = steps
+	}
+	return w
 }
